@@ -27,6 +27,12 @@ package circuitbreaker
 //@ spec func nListeners() = len(stateChangeListeners)
 
 //@ func (b *circuitBreakerBase) fromClosedToOpen(snapshot) ok
+//@   replay breaker_stale_deadline
+//@   concurrent C12
+//@   shared deref(b.state), b.nextRetryTimestampMs, b.curProbeNumber
+//@   ensures[reported-iff-own-cas]{C12} gToOpen == old(gToOpen) + (ok ? nListeners() : 0) && (ok && nListeners() > 0 ==> gToOpenPrev == Closed) && (ok <==> wrote(deref(b.state), Closed, Open))
+//@   onwrite[legal-edge]{C12} deref(b.state): prev == Closed && new == Open
+//@   onwrite[deadline-before-open]{C12} deref(b.state): new == Open ==> b.nextRetryTimestampMs >= clock_ms + b.retryTimeoutMs
 //@   props C03, C12
 //@   requires baseOK(b)
 //@   ensures[cas] ok <==> old(st(b)) == Closed
@@ -38,6 +44,12 @@ package circuitbreaker
 //@     invariant gToOpen == old(gToOpen) + #i && (#i > 0 ==> gToOpenPrev == Closed)
 
 //@ func (b *circuitBreakerBase) fromHalfOpenToOpen(snapshot) ok
+//@   replay breaker_stale_deadline
+//@   concurrent C12
+//@   shared deref(b.state), b.nextRetryTimestampMs, b.curProbeNumber
+//@   ensures[reported-iff-own-cas]{C12} gToOpen == old(gToOpen) + (ok ? nListeners() : 0) && (ok && nListeners() > 0 ==> gToOpenPrev == HalfOpen) && (ok <==> wrote(deref(b.state), HalfOpen, Open))
+//@   onwrite[legal-edge]{C12} deref(b.state): prev == HalfOpen && new == Open
+//@   onwrite[deadline-before-open]{C12} deref(b.state): new == Open ==> b.nextRetryTimestampMs >= clock_ms + b.retryTimeoutMs
 //@   props C03, C12
 //@   requires baseOK(b)
 //@   ensures[cas] ok <==> old(st(b)) == HalfOpen
@@ -50,6 +62,10 @@ package circuitbreaker
 //@     invariant gToOpen == old(gToOpen) + #i && (#i > 0 ==> gToOpenPrev == HalfOpen)
 
 //@ func (b *circuitBreakerBase) fromHalfOpenToClosed() ok
+//@   concurrent C12
+//@   shared deref(b.state), b.nextRetryTimestampMs, b.curProbeNumber
+//@   ensures[reported-iff-own-cas]{C12} gToClosed == old(gToClosed) + (ok ? nListeners() : 0) && (ok && nListeners() > 0 ==> gToClosedPrev == HalfOpen) && (ok <==> wrote(deref(b.state), HalfOpen, Closed))
+//@   onwrite[legal-edge]{C12} deref(b.state): prev == HalfOpen && new == Closed
 //@   props C03, C12
 //@   requires baseOK(b)
 //@   ensures[cas] ok <==> old(st(b)) == HalfOpen
@@ -62,6 +78,10 @@ package circuitbreaker
 
 // Open -> HalfOpen admits the probe; a rollback hook is registered on the probe's entry
 //@ func (b *circuitBreakerBase) fromOpenToHalfOpen(ctx) ok
+//@   concurrent C12
+//@   shared deref(b.state), b.nextRetryTimestampMs, b.curProbeNumber
+//@   ensures[reported-iff-own-cas]{C12} gToHalf == old(gToHalf) + (ok ? nListeners() : 0) && (ok && nListeners() > 0 ==> gToHalfPrev == Open) && (ok <==> wrote(deref(b.state), Open, HalfOpen))
+//@   onwrite[legal-edge]{C12} deref(b.state): prev == Open && new == HalfOpen
 //@   props C03, C12
 //@   requires baseOK(b) && ctx != nil
 //@   ensures[cas] ok <==> old(st(b)) == Open
@@ -75,6 +95,10 @@ package circuitbreaker
 
 // the rollback hook: a probe that was blocked by a later rule returns the breaker to Open, deadline unchanged
 //@ func fromOpenToHalfOpen$1(entry, ctx) err
+//@   concurrent C12
+//@   shared deref(b.state), b.nextRetryTimestampMs, b.curProbeNumber
+//@   ensures[reported-iff-own-cas]{C12} gToOpen == old(gToOpen) + (wrote(deref(b.state), HalfOpen, Open) ? nListeners() : 0) && (wrote(deref(b.state), HalfOpen, Open) && nListeners() > 0 ==> gToOpenPrev == HalfOpen)
+//@   onwrite[legal-edge]{C12} deref(b.state): prev == HalfOpen && new == Open && wasBlocked
 //@   props C03, C12
 //@   requires baseOK(b) && ctx != nil
 //@   let wasBlocked = ctx.RuleCheckResult != nil && ctx.RuleCheckResult.status == base.ResultStatusBlocked
@@ -111,6 +135,14 @@ package circuitbreaker
 //@ spec func errorsOf(cs) = usum(seqof(j, cs[j].errorCount), len(cs))
 
 //@ func (b *errorCountCircuitBreaker) TryPass(ctx) r
+//@   concurrent C12
+//@   shared deref(b.state), b.nextRetryTimestampMs, b.curProbeNumber
+//@   ensures[closed-passes]{C12} firstload(deref(b.state)) == Closed ==> r
+//@   ensures[open-admits-only-own-cas]{C12} firstload(deref(b.state)) == Open ==> (r <==> wrote(deref(b.state), Open, HalfOpen))
+//@   ensures[open-waits-for-deadline]{C12} firstload(deref(b.state)) == Open && r ==> clock_ms >= firstload(b.nextRetryTimestampMs)
+//@   ensures[half-open-admits-none]{C12} firstload(deref(b.state)) == HalfOpen ==> (r <==> b.probeNumber > 0)
+//@   ensures[one-report-per-passage]{C12} gToHalf == old(gToHalf) + (wrote(deref(b.state), Open, HalfOpen) ? nListeners() : 0)
+//@   onwrite[legal-edge]{C12} deref(b.state): prev == Open && new == HalfOpen
 //@   props C03, C12
 //@   requires b != nil && baseOK(b.circuitBreakerBase) && ctx != nil
 //@   let s0 = st(b.circuitBreakerBase)
@@ -150,6 +182,14 @@ package circuitbreaker
 // ---- error-ratio breaker (same statistics; opens when errors/total reaches the threshold, with the 1e-8 tolerance
 // of util.Float64Equals made explicit)
 //@ func (b *errorRatioCircuitBreaker) TryPass(ctx) r
+//@   concurrent C12
+//@   shared deref(b.state), b.nextRetryTimestampMs, b.curProbeNumber
+//@   ensures[closed-passes]{C12} firstload(deref(b.state)) == Closed ==> r
+//@   ensures[open-admits-only-own-cas]{C12} firstload(deref(b.state)) == Open ==> (r <==> wrote(deref(b.state), Open, HalfOpen))
+//@   ensures[open-waits-for-deadline]{C12} firstload(deref(b.state)) == Open && r ==> clock_ms >= firstload(b.nextRetryTimestampMs)
+//@   ensures[half-open-admits-none]{C12} firstload(deref(b.state)) == HalfOpen ==> (r <==> b.probeNumber > 0)
+//@   ensures[one-report-per-passage]{C12} gToHalf == old(gToHalf) + (wrote(deref(b.state), Open, HalfOpen) ? nListeners() : 0)
+//@   onwrite[legal-edge]{C12} deref(b.state): prev == Open && new == HalfOpen
 //@   props C03, C12
 //@   requires b != nil && baseOK(b.circuitBreakerBase) && ctx != nil
 //@   let s0 = st(b.circuitBreakerBase)
@@ -205,6 +245,14 @@ package circuitbreaker
 //@   ensures[no-boundary-between-reads] gCurSlow != 0 ==> usum(seqof(j, r[j].totalCount), len(r)) >= 1
 //@   modifies gAllSlow
 //@ func (b *slowRtCircuitBreaker) TryPass(ctx) r
+//@   concurrent C12
+//@   shared deref(b.state), b.nextRetryTimestampMs, b.curProbeNumber
+//@   ensures[closed-passes]{C12} firstload(deref(b.state)) == Closed ==> r
+//@   ensures[open-admits-only-own-cas]{C12} firstload(deref(b.state)) == Open ==> (r <==> wrote(deref(b.state), Open, HalfOpen))
+//@   ensures[open-waits-for-deadline]{C12} firstload(deref(b.state)) == Open && r ==> clock_ms >= firstload(b.nextRetryTimestampMs)
+//@   ensures[half-open-admits-none]{C12} firstload(deref(b.state)) == HalfOpen ==> (r <==> b.probeNumber > 0)
+//@   ensures[one-report-per-passage]{C12} gToHalf == old(gToHalf) + (wrote(deref(b.state), Open, HalfOpen) ? nListeners() : 0)
+//@   onwrite[legal-edge]{C12} deref(b.state): prev == Open && new == HalfOpen
 //@   props C03, C12
 //@   requires b != nil && baseOK(b.circuitBreakerBase) && ctx != nil
 //@   let s0 = st(b.circuitBreakerBase)
